@@ -12,14 +12,14 @@ P_NOTE = ('Level is `other` because at least one clause of every property is onl
           'input or when it was discharged on the committed tree (ledger); undecided is never a violation.')
 
 CHECKS = {
- 'C01': ('other', 'P: the 15 parse actions (blueprint = exactly the tokens, optional parts None, trailing comment wins), the collecting action parse_blueprint (4 loop invariants), every blueprint builder '
+ 'C01': ('other', 'P: all 16 parse actions (blueprint = exactly the tokens, optional parts None, trailing comment wins), the collecting action parse_blueprint (4 loop invariants), every blueprint builder '
          '(ColumnBlueprint.build: enum linking by last-dot split; ReferenceBlueprint.build: endpoints are the listed tables\' own Column objects; TableGroup/Enum/Index/Note/Project builders; '
          'get_reference_blueprints with nested invariants), constructors incl. the loops of Table.__init__/Enum.__init__, adders and Table.__getitem__ are discharged by z3 for all inputs; '
          'TableBlueprint.build (3 loop invariants) and the second phase build_database (5 loop invariants) are verified in the thorough tier (minutes); S: newline is significant; '
          'B (bounded, never counted as proved): view(parse(surface(m, spelling))) == m over exhaustive per-element feature products and seeded documents, spelling invariance, alias shadowing. '
          'The pyparsing matcher is outside the verifier\'s reach (DESIGN.md 2.7, 4)', '3/C01',
          'contracts on parse actions, builders and constructors (PyVC + z3) + bounded run-time contract on the real parser'),
- 'C02': ('other', 'P: 28 DBML element renderers (every one: expression, note, sticky note, enum, column, index, reference in both forms, table header/indexes/table, table group, project) equal canonical-text spec functions; Table.get_refs/Column.get_refs verified; L: the single-quoted literal of prepare_text_for_dbml reads back unchanged (induction; definitions checked against the real routines, bounded); '
+ 'C02': ('other', 'P: 28 DBML element renderers (every one: expression, note, sticky note, enum, column, index, reference in both forms, table header/indexes/table, table group, project) equal canonical-text spec functions; Table.get_refs/Column.get_refs verified; quote_name_if_needed/quote_type_if_needed verified (regular expression translated to SMT from CPython\'s parse tree and proved equal to the bare-spelling language written in the contract); locate_table; L (unfolding generated from the pattern extracted from the source): the single-quoted literal of prepare_text_for_dbml reads back unchanged (induction; definitions checked against the real routines, bounded); '
          'B (bounded): parse(db.dbml) has the same view and rendering is a fixpoint over API-built models of the DBML-expressible domain and the repository documents', '3/C02',
          'renderer contracts (PyVC + z3), induction lemma (z3/cvc5), bounded round-trip oracle on the real renderer+parser'),
  'C03': ('other', 'P: every SQL element renderer (column, index, enum, enum item, expression, note, table body/components/table) equals the DDL spec function of the model, schema-qualified names included; '
